@@ -121,6 +121,30 @@ def r2(ctx, L):
     ctx.check("R04.2", "epoch-range", ok, "epoch-range:" + short(pretty(it), 60), c.loc(fn, L.epoch), "for epoch in 1..epochs+1")
 
 
+# `&self` methods of Vec / slices / Option: reached through a `&mut` place (a helper's `&mut Vec` parameter) they still only read
+_READERS = ("is_empty", "len", "iter", "first", "last", "get", "contains", "clone", "to_vec", "as_slice", "as_ref", "capacity", "is_some", "is_none", "windows", "chunks")
+
+
+def _writes(c, body, hids):
+    """names of the constructs under `body` that write to (a place rooted at) one of the locals `hids`: `=` for assignments, `&mut` for explicit
+    mutable borrows, the method name for calls that take the local by `&mut self`"""
+    def root(n):
+        n = strip(n)
+        while n is not None and n.get("k") in ("field", "index"):
+            n = strip(n["b"])
+        return e4.local_hid(n) if n is not None else None
+    out = []
+    for x in walk(body):
+        k = x.get("k")
+        if k in ("assign", "assignop") and root(x["l"]) in hids:
+            out.append("=")
+        elif k == "ref" and x.get("mut") and root(x["x"]) in hids:
+            out.append("&mut")
+        elif k == "mcall" and root(x["recv"]) in hids and (c.tya(x["recv"]) or "").startswith("&mut") and x["name"] not in _READERS:
+            out.append(x["name"])
+    return out
+
+
 def r3(ctx, L):
     c = ctx.crate
     fn = L.fn
@@ -144,6 +168,21 @@ def r3(ctx, L):
     seq = [cal for (_, cal) in calls(cl["body"]) if cal in ("network::Network::forward", "objective::Function::loss", "network::Network::backward")]
     ctx.check("R04.3", "per-sample-pipeline", seq == ["network::Network::forward", "objective::Function::loss", "network::Network::backward"],
               "per-sample-pipeline:" + ",".join(s.split("::")[-1] for s in seq), c.loc(fn, cl), "forward -> loss -> backward per sample")
+    # the records Network::forward returned are handed to Network::backward as they are: each of backward's record arguments is the binding
+    # of the same position of forward's result, and nothing writes to it in between (reversed, swapped, truncated ..)
+    fw_let = next((x for x in walk(cl["body"]) if x.get("k") in ("let", "letx") and x.get("init") is not None
+                   and (strip(x["init"]) or {}).get("k") == "mcall" and strip(x["init"])["callee"] == "network::Network::forward"), None)
+    bw = next((x for x in walk(cl["body"]) if x.get("k") == "mcall" and x["callee"] == "network::Network::backward"), None)
+    if fw_let is not None and bw is not None and fw_let["pat"].get("k") == "tuple" and len(fw_let["pat"]["ps"]) == 4 and len(bw["args"]) == 5:
+        rec = [(q.get("hid") if q.get("k") == "bind" else None) for q in fw_let["pat"]["ps"]]
+        got = [e4.local_hid(a) for a in bw["args"][1:]]
+        wr = _writes(c, cl["body"], {h for h in rec if h is not None})
+        ctx.check("R04.3", "records-handed-to-backward-unchanged", got == rec and None not in rec and not wr,
+                  "forward-records-to-backward:" + ("written:" + wr[0] if wr else ",".join("%d" % i for i in range(4) if got[i] != rec[i])), c.loc(fn, bw),
+                  "self.backward(gradient, &preactivated, &activated, &maxpools, feedbacks) with forward's own results",
+                  "the per-sample closure hands Network::backward records that are not (or no longer) the ones Network::forward returned")
+    else:
+        ctx.bad("R04.3", "records-handed-to-backward-unchanged", "forward-records-to-backward:form", c.loc(fn, cl), "let (pre, post, max, fb) = self.forward(input); self.backward(g, &pre, &post, &max, fb)")
     # closure result (wg, bg, loss) matches the accumulation pattern (wg, wb, loss)
     acc_loops = [s for s in L.batch_body if s.get("k") == "for" and e4.local_hid(s["iter"]) == rh]
     if len(acc_loops) != 1:
@@ -174,6 +213,11 @@ def r3(ctx, L):
     ctx.check("R04.3", "accumulate-with-add-only", not bad and n_add == 2, "accumulator-combined-with:" + ",".join(sorted({b["name"] for b in bad})) + ":%d" % n_add,
               c.loc(fn, bad[0]) if bad else c.loc(fn, al), "gradients combined with add_inplace only (weights and biases)",
               "per-sample gradients are combined with %s (add_inplace calls: %d); the step must use the plain sum" % ([b["name"] for b in bad], n_add))
+    # the sums are not touched except by the first-result assignment and the zipped add loops (no reordering / trimming before the step)
+    wr = [w for w in _writes(c, L.batch_loop["body"], {wh, bh_}) if w not in ("iter_mut", "=")]
+    ctx.check("R04.3", "sums-reach-the-step-unchanged", not wr, "accumulators-changed-by:" + ",".join(sorted(set(wr))), c.loc(fn, al),
+              "weight_gradients / bias_gradients: assigned from the first result, added to element-wise, handed to update",
+              "the summed gradients are changed by %s before the optimizer step" % sorted(set(wr)))
     # assignments to the accumulators: only `= wg` / `= wb` under is_empty()
     asg = [x for x in walk(L.batch_loop["body"]) if x.get("k") == "assign" and e4.local_hid(x["l"]) in (wh, bh_)]
     ok_asg = sorted((e4.local_hid(x["l"]), e4.local_hid(x["r"])) for x in asg) == sorted([(wh, g_w), (bh_, g_b)])
@@ -322,6 +366,6 @@ def run(ctx):
         ctx.guard("R04.4", "loss", r4, ctx, L, lh)
     ctx.floor("R04.1", 4, "")
     ctx.floor("R04.2", 6, "")
-    ctx.floor("R04.3", 11, "pipeline, tuple, add-only, init, alignment, 3 fresh, order, no-exit, in-order")
+    ctx.floor("R04.3", 13, "pipeline, records, tuple, add-only, sums untouched, init, alignment, 3 fresh, order, no-exit, in-order")
     ctx.floor("R04.4", 6, "")
     ctx.floor("R04.5", 1, "")
